@@ -285,9 +285,6 @@ Qed.
 
 (* ---- ReadFrame ------------------------------------------------------------ *)
 
-Definition ro_beyond (o : read_out) : bool :=
-  match ro_alloc o with Some n => negb (n =? 0) | None => false end.
-
 (* validate-before-allocate: the allocator is only ever reached with the BodyLen
    of a header that passed every check, in particular BodyLen <= max *)
 Lemma read_alloc_validated stream max n : ro_alloc (read_frame stream max) = Some n ->
@@ -415,9 +412,6 @@ Proof.
     rewrite L2. rewrite firstn_app, Nat.sub_diag, firstn_all. cbn [firstn]. rewrite app_nil_r.
     rewrite Lb. rewrite Nnat.Nat2N.inj_add. reflexivity.
 Qed.
-
-Definition written_frames (fs : list frame) : list (wres (header * bytes)) :=
-  map (fun f => WOk (with_bodylen (f_hdr f) (N.of_nat (length (f_body f))), f_body f)) fs.
 
 (* C26 (a): every written batch of frames reads back as exactly those frames, in order *)
 Lemma write_read_roundtrip fs : forall max b rest, forallb frame_in_domain fs = true ->
